@@ -22,8 +22,8 @@ UNITS = {
 PROPS = {
     "C15": dict(
         level="exploration",
-        technique="property-based testing (rapid) plus, in the thorough tier, native coverage-guided go fuzzing: per user-writable field three input generators mixed 1:1:1 (structured-valid / structured-valid with one mutation / raw byte strings) fed to the real parser and to the code that consumes its result; the CNI plugin target continues from parseSetupConf into the IPVlan host-stack redirect (setupFilters/dstIPRule on `lo` in a private netns) with host_stack_cidrs in dotted, IPv6 and IPv4-mapped notation; configurations of the terway-controlplane ConfigMap that the real ParseAndValidate accepts are installed in the real MutatingHook and pods are admitted through its handler; the eni-config backoff_override is applied as the daemon does and followed into Remote.Allocate / CRDV2.Allocate in a child process per case (they answer from goroutines of their own; the child dying with a Go panic is the violation); a panic is the only failure, except the bandwidth sentence, checked against its own arithmetic (accepted with/without unit, aliases equal, x1024 per unit step within integer truncation, monotone in n)",
-        rule="per entry point, inputs drawn 1:1:1 from valid-by-construction, valid with exactly one mutation (type swap, truncation, huge number, unicode, empty, null, renamed/duplicated key, mutation inside an embedded JSON string) and raw byte strings (random bytes / strings over the field's alphabet / hostile constants); CNI configurations are IPVlan configurations with 1..3 host_stack_cidrs entries (IPv4-mapped IPv6 prefixes 96..128 over-represented) in one case of three; ctrl-config documents carry every optional key absent / set / explicitly null (enableTrunk and enableWebhookInjectResource over all 4x4 combinations), as JSON or block YAML; backoff_override documents name 1..3 of pkg/backoff's keys (or unknown ones) with any subset of Duration/Factor/Jitter/Steps/Cap over zero/negative/huge values, against a fake API server with/without a matching PodENI / Node CR and a live or already cancelled request context; non-trivial = the input got past the first validation step of its parser (decoded as JSON / numeric prefix parsed / annotation present / address parsed; see depth labels); distinct = distinct scenario hash",
+        technique="property-based testing (rapid) plus, in the thorough tier, native coverage-guided go fuzzing: per user-writable field three input generators mixed 1:1:1 (structured-valid / structured-valid with one mutation / raw byte strings) fed to the real parser and to the code that consumes its result; the CNI plugin target continues from parseSetupConf into the IPVlan host-stack redirect (setupFilters/dstIPRule on `lo` in a private netns) with host_stack_cidrs in dotted, IPv6 and IPv4-mapped notation; configurations of the terway-controlplane ConfigMap that the real ParseAndValidate accepts are installed in the real MutatingHook and pods are admitted through its handler; the eni-config backoff_override is applied as the daemon does and followed into Remote.Allocate / CRDV2.Allocate in a child process per case (they answer from goroutines of their own; the child dying with a Go panic is the violation); kube-system/kubeadm-config (ClusterConfiguration / MasterConfiguration), the node's terway-config label and the dynamic-config ConfigMap are fed to the daemon's start-up readers in pkg/k8s (setSvcCIDR -> serviceCidrFromAPIServer, GetDynamicConfigWithName); a panic is the only failure, except the bandwidth sentence, checked against its own arithmetic (accepted with/without unit, aliases equal, x1024 per unit step within integer truncation, monotone in n)",
+        rule="per entry point, inputs drawn 1:1:1 from valid-by-construction, valid with exactly one mutation (type swap, truncation, huge number, unicode, empty, null, renamed/duplicated key, mutation inside an embedded JSON string) and raw byte strings (random bytes / strings over the field's alphabet / hostile constants); CNI configurations are IPVlan configurations with 1..3 host_stack_cidrs entries (IPv4-mapped IPv6 prefixes 96..128 over-represented) in one case of three; ctrl-config documents carry every optional key absent / set / explicitly null (enableTrunk and enableWebhookInjectResource over all 4x4 combinations), as JSON or block YAML; backoff_override documents name 1..3 of pkg/backoff's keys (or unknown ones) with any subset of Duration/Factor/Jitter/Steps/Cap over zero/negative/huge values, against a fake API server with/without a matching PodENI / Node CR and a live or already cancelled request context; kubeadm-config documents come from a small YAML grammar (networking absent/scalar/list/null/map; serviceSubnet absent/CIDR/garbage/list/null/number/bool/map/dual-stack), in either or both keys, with eni-config service_cidr states that do and do not reach the fallback; for grammar-built documents the answer must be the CIDR written in the document or an error; non-trivial = the input got past the first validation step of its parser (decoded as JSON / numeric prefix parsed / annotation present / address parsed; see depth labels); distinct = distinct scenario hash",
         assumptions=[
             "daemon mode (ENIMultiIP/ENIOnly) and the reply's IP type are restricted to the values the daemon itself produces (convertPod and getDatePath panic by design on others)",
             "the daemon's reply reaches the plugin as gRPC messages: absent sub-messages are nil, repeated fields never hold nil",
@@ -37,6 +37,7 @@ PROPS = {
             dict(unit="c15_k8s", test="TestVerifC15KnownWitnessBandwidthNoUnit", quick=1, thorough=1, shards=1),
             dict(unit="c15_k8s", test="TestVerifC15KnownWitnessPodStoreNilPod", quick=1, thorough=1, shards=1),
             dict(unit="c15_k8s", test="TestVerifC15ConvertPod", quick=16000, thorough=1000000),
+            dict(unit="c15_k8s", test="TestVerifC15ServiceCIDR", quick=12000, thorough=600000),
             dict(unit="c15_k8s", test="TestVerifC15PodStore", quick=8000, thorough=400000),
             dict(unit="c15_controlplane", test="TestVerifC15PodNetworksAnnotation", quick=16000, thorough=2000000),
             dict(unit="c15_podeni", test="TestVerifC15NumaHints", quick=12000, thorough=2000000),
@@ -62,6 +63,7 @@ PROPS = {
             dict(unit="c15_k8s", fuzz="FuzzVerifC15Bandwidth", seconds=30),
             dict(unit="c15_k8s", fuzz="FuzzVerifC15ConvertPod", seconds=30),
             dict(unit="c15_k8s", fuzz="FuzzVerifC15PodStore", seconds=30),
+            dict(unit="c15_k8s", fuzz="FuzzVerifC15KubeadmConfig", seconds=20),
             dict(unit="c15_controlplane", fuzz="FuzzVerifC15PodNetworks", seconds=30),
             dict(unit="c15_typesdaemon", fuzz="FuzzVerifC15DaemonConfig", seconds=30),
             dict(unit="c15_eni", fuzz="FuzzVerifC15LocalLoad", seconds=30),
